@@ -89,9 +89,9 @@ func buildPool(c *Case, cl *fakekafka.Cluster) (*poolLog, error) {
 				off++
 			}
 			bases = append(bases, recs[0].Offset)
-			codec := codecs[(pi+c.Codec)%len(codecs)]
-			if c.Codec < 0 {
-				codec = krec.None
+			codec := krec.None // case codec < 0: every partition uncompressed
+			if c.Codec >= 0 {
+				codec = codecs[(pi+c.Codec)%len(codecs)]
 			}
 			bytes := krec.SimpleV2(recs, codec)
 			cl.Lock()
